@@ -85,6 +85,19 @@ Proof.
 Qed.
 Print Assumptions C17_at_time_first_day_refuted.
 
+(* stop with an explicit date selection looks at the record of that date only and never computes the day before: every
+   date of the calendar, the first one included, is an ordinary target (fix F13) *)
+Theorem C17_stop_explicit_date : forall now cfg a summary file d t rs bs,
+  at_date now (a_date a) = Ok d -> at_time now cfg a = COk t -> was_automatic a = false ->
+  parse_text file = Ok (Parsed rs bs) ->
+  exec_simple now cfg (Stop a summary) file =
+    match reconciler_at_record (dt d) rs bs with
+    | Some r => finish (lift_r (close_open_range r t (time_format cfg a) (match summary with Some s => s | None => [] end)))
+    | None => CErr CENoSuchRecord
+    end.
+Proof. exact stop_explicit_date. Qed.
+Print Assumptions C17_stop_explicit_date.
+
 (* 3. Stop. Spelled out for any arguments: the record of the target date when there is one; otherwise, and only
       when neither a date nor a time was selected, yesterday's record with the end time shifted by 24 hours
       ([stop_time] turns a failing Time.Plus into the error "impossible time") *)
